@@ -807,6 +807,19 @@ func makeDefaultValue(typ *TypeDescriptor, val *parser.ConstValue, tree *parser.
 	}
 	switch val.Type {
 	case parser.ConstType_ConstInt:
+		if x := val.TypedValue.Int; x != nil && typ.typ == DOUBLE {
+			// an integer literal is a legal default of a double field (`1: double d = 1`)
+			d := float64(*x)
+			return makeDefaultValue(typ, &parser.ConstValue{Type: parser.ConstType_ConstDouble, TypedValue: &parser.ConstTypedValue{Double: &d}}, tree)
+		}
+		if x := val.TypedValue.Int; x != nil && typ.typ == BOOL && (*x == 0 || *x == 1) {
+			// 0 / 1 are legal defaults of a bool field (`1: bool b = 1`)
+			id := "false"
+			if *x == 1 {
+				id = "true"
+			}
+			return makeDefaultValue(typ, &parser.ConstValue{Type: parser.ConstType_ConstIdentifier, TypedValue: &parser.ConstTypedValue{Identifier: &id}}, tree)
+		}
 		if !typ.typ.IsInt() {
 			return nil, fmt.Errorf("mismatched int default value with type %s", typ.name)
 		}
